@@ -1,9 +1,11 @@
 """C12 - module trees report each parameter once and propagate mode to all descendants."""
 import ast
-from sa.core import norm, body_walk, dotted, names_in
+from sa.core import norm, body_walk, dotted, names_in, inline_expr
 from sa.cfg import CFG, facts_at
 from sa.defuse import maybe_unbound
 from sa.report import Incomplete
+from sa.peval import PE
+import re
 
 MMOD = 'synapgrad.nn.modules'
 MOD = MMOD + '.Module'
@@ -74,34 +76,61 @@ def registry_effects(model, f, stmts, depth=0):
     return eff
 
 
+_REG = re.compile(r"^self\.(?:__dict__\[')?(_parameters|_submodules)(?:'\])?(\[|\.|$)")
+
+
+def pe_effects(o):
+    """registry effects along one evaluated path: stores self.<reg>[k] = v -> set ; .pop/.popitem/.clear/del -> pop ; update/setdefault/__setitem__ -> set"""
+    eff = set()
+    for key, v, st in o.stores:
+        m = _REG.match(key)
+        if m and m.group(2) == '[':
+            eff.add((m.group(1), 'set'))
+        elif m and m.group(2) == '':
+            eff.add((m.group(1), 'rebind'))
+    for ctext, args, kw, node in o.calls:
+        if ctext == 'del':
+            m = _REG.match(args[0])
+            if m and m.group(2) == '[':
+                eff.add((m.group(1), 'pop'))
+            continue
+        m = _REG.match(ctext)
+        if m and m.group(2) == '.':
+            meth = ctext[m.end():]
+            if meth in ('pop', 'popitem', 'clear'):
+                eff.add((m.group(1), 'pop'))
+            elif meth in ('__setitem__', 'update', 'setdefault'):
+                eff.add((m.group(1), 'set'))
+    return eff
+
+
 def check(model, R, tier):
     module = model.cls(MOD)
     # ---------------------------------------------------------------- REG-EXCLUSIVE
     R.rule('C12.REG-EXCLUSIVE', 'on every branch of Module.__setattr__ the name ends up in at most one registry: Module branch sets _submodules and removes from _parameters, '
                                 'Parameter branch the reverse, plain values are removed from both', floor=3)
     sa = model.func(MOD + '.__setattr__')
-    branches = {}
-    for n in sa.node.body:
-        if isinstance(n, ast.If):
-            cur = n
-            while True:
-                t = norm(cur.test)
-                key = 'Module' if 'Module)' in t and 'isinstance' in t else ('Parameter' if 'Parameter)' in t and 'isinstance' in t else t)
-                branches[key] = cur.body
-                if len(cur.orelse) == 1 and isinstance(cur.orelse[0], ast.If):
-                    cur = cur.orelse[0]
-                else:
-                    branches['plain'] = cur.orelse
-                    break
     want = {'Module': {('_submodules', 'set'), ('_parameters', 'pop')}, 'Parameter': {('_parameters', 'set'), ('_submodules', 'pop')},
             'plain': {('_parameters', 'pop'), ('_submodules', 'pop')}}
+    nm, vl = sa.pos_params[1], sa.pos_params[2]
+    base = {"hasattr(self, '_initialized')": True, 'self._initialized': True, "'_parameters' in self.__dict__": True, "'_submodules' in self.__dict__": True,
+            "hasattr(self, '_parameters')": True, "hasattr(self, '_submodules')": True}
     for k, w in want.items():
-        if k not in branches:
-            R.incomplete_at('C12.REG-EXCLUSIVE', sa.qualname, 'branch for %s values not found in __setattr__' % k)
+        preds = dict(base)
+        preds['isinstance(%s, Module)' % vl] = k == 'Module'
+        preds['isinstance(%s, Parameter)' % vl] = k == 'Parameter'
+        preds['isinstance(%s, (Module, Parameter))' % vl] = preds['isinstance(%s, (Parameter, Module))' % vl] = k != 'plain'
+        try:
+            outs = PE(model, preds=preds).paths(sa, {})
+        except Incomplete as u:
+            R.incomplete_at('C12.REG-EXCLUSIVE', sa.qualname, 'path evaluation of the %s case: %s' % (k, u))
             continue
-        eff = registry_effects(model, sa, branches[k])
-        R.ob('C12.REG-EXCLUSIVE', sa.qualname, '%s branch: %s' % (k, sorted(eff)), eff == w,
-             'assigning a %s value must leave the registries as %s (got %s): otherwise a replaced attribute stays registered (still returned by parameters() / submodules())' % (k, sorted(w), sorted(eff)), sa.loc)
+        for o in outs:
+            eff = pe_effects(o)
+            extra = [c for c in o.conds if c[0] not in preds]
+            R.ob('C12.REG-EXCLUSIVE', sa.qualname, '%s value%s: %s' % (k, ' under %s' % extra if extra else '', sorted(eff)), o.kind != 'raise' and eff == w,
+                 'assigning a %s value must leave the registries as %s (got %s, path ends in %s): otherwise a replaced attribute stays registered (still returned by parameters() / submodules())'
+                 % (k, sorted(w), sorted(eff), o.kind), sa.loc)
     # ---------------------------------------------------------------- ORDER
     R.rule('C12.ORDER', 'registries are insertion-ordered mappings written only by __init__/register_*/__setattr__; register_* check initialisation and type first; '
                         'submodules() and parameters() enumerate them in order (own parameters first)', floor=8)
@@ -254,10 +283,13 @@ def check_parameters(model, R, pf):
         fs = facts_at(cfg, st)
         v = norm(val)
         guarded = False
+        inl = lambda x: norm(inline_expr(pf.node, x))
         for t, p, e in fs:
-            if isinstance(e, ast.Compare) and len(e.ops) == 1 and norm(e.left) == 'id(%s)' % v and ((isinstance(e.ops[0], ast.NotIn) and p) or (isinstance(e.ops[0], ast.In) and not p)):
+            if isinstance(e, ast.Compare) and len(e.ops) == 1 and inl(e.left) == 'id(%s)' % v and ((isinstance(e.ops[0], ast.NotIn) and p) or (isinstance(e.ops[0], ast.In) and not p)):
                 seen = norm(e.comparators[0])
-                marks = [m for m in body_walk(pf.node) if isinstance(m, ast.Expr) and norm(m.value) in ('%s.add(id(%s))' % (seen, v),)]
+                marks = [m for m in body_walk(pf.node) if isinstance(m, ast.Expr) and isinstance(m.value, ast.Call) and norm(m.value.func) == '%s.add' % seen
+                         and len(m.value.args) == 1 and inl(m.value.args[0]) == 'id(%s)' % v and cfg.in_loop(m) and cfg.in_loop(st) and cfg.in_loop(m)[0] is cfg.in_loop(st)[0]
+                         and not [c_ for c_ in cfg.conditions(m) if c_ not in cfg.conditions(st)]]
                 guarded = bool(marks)
             if isinstance(e, ast.Call) and dotted(e.func) == 'any' and not p and (' is ' in t) and v in t and res in t:
                 guarded = True
